@@ -851,10 +851,15 @@ func mutateLine(r *hx.Rng, ln string) string {
 func main() {
 	seed := flag.Uint64("seed", 1, "PRNG seed")
 	tier := flag.String("tier", "quick", "quick|thorough")
+	extractFormats := flag.String("extract-formats", "", "translator mode: list the %s / %v arguments of the diagnostic formats of the package in this directory")
+	genFormats := flag.String("gen", "GenFormats.v", "output of -extract-formats")
 	out := flag.String("out", "", "output directory")
 	repo := flag.String("repo", "/repo", "actionlint source tree (for .github/actionlint-matcher.json)")
 	replay := flag.String("replay", "", "replay file")
 	flag.Parse()
+	if *extractFormats != "" {
+		os.Exit(doExtractFormats(*extractFormats, *genFormats))
+	}
 	if *out != "" {
 		*out, _ = filepath.Abs(*out)
 	}
